@@ -38,7 +38,7 @@ def gen_case(seed, tier, prop="C18"):
         msgs = []
         for _ in range(rng.randint(0, 6 if big else 4)):
             msgs.append(rng.choice([1, 1, 2, 5, 17, 100, 300, 1000, 5000] if big else [1, 2, 5, 17, 100, 300, 1000]))
-        return {"kind": rng.choice(["tcp", "tcp_wrapped", "unix"]),
+        return {"kind": rng.choice(["tcp", "tcp_wrapped", "unix", "tcp", "tcp_wrapped", "unix", "unix_from_socket", "tcp_from_socket"]),
                 "rtimeout": [rng.choice([None, None, None, 0, 0.0625]) for _ in range(3)],
                 "msgs": msgs,
                 "wpause": [rng.choice([0, 0, 0, 0.125]) for _ in range(3)],
@@ -97,6 +97,13 @@ class SockRun:
         loop = self.sim.loop
         if kind == "unix":
             return A.UNIXSocketStream(sock), None, None
+        if kind in ("unix_from_socket", "tcp_from_socket"):
+            # the public constructors for an existing socket object (a fresh one is in blocking mode, like the ends of
+            # socket.socketpair()): validation, switch to non-blocking mode, then the backend's wrapper
+            sock.setblocking(True)
+            cls = anyio.abc.UNIXSocketStream if kind == "unix_from_socket" else anyio.abc.SocketStream
+            stream = await cls.from_socket(sock)
+            return stream, getattr(stream, "_transport", None), getattr(stream, "_protocol", None)
         if kind == "tcp_wrapped":
             # anyio's own creation path for an existing socket object (SocketStream.from_socket ->
             # AsyncIOBackend.wrap_stream_socket -> loop.create_connection(sock=...)), unchanged
@@ -393,6 +400,11 @@ class SockRun:
             self.v("error", "unexpected exception: " + "".join(traceback.format_exception(sim.error))[-1500:])
         loop = sim.loop
         c = self.case
+        kern = getattr(loop, "kern", None)
+        if kern is not None and kern.blocking_calls:
+            fd, what = kern.blocking_calls[0]
+            self.v("deadlock", f"{what}() had to wait on a socket that was left in blocking mode ({len(kern.blocking_calls)} such "
+                               f"call(s)): with a real socket the call would not return and the whole event loop would freeze")
         blocked = self.faults.get("partial_write", 0) > 0
         return {"violations": self.viol, "digest": self.h.digest(), "faults": dict(self.faults),
                 "nontrivial": self.nontrivial or blocked, "vtime": loop._vnow if loop else 0.0,
